@@ -420,10 +420,10 @@ class _resolve_called_lambdas(ast.NodeTransformer):
             # (keyword-only, positional-only, *args and **kwargs parameters are not in `args.args`;
             # a starred argument stands for any number of values)
             plain = not (
-                lambda_node.args.posonlyargs
-                or lambda_node.args.kwonlyargs
-                or lambda_node.args.vararg
-                or lambda_node.args.kwarg
+                getattr(lambda_node.args, "posonlyargs", None)
+                or getattr(lambda_node.args, "kwonlyargs", None)
+                or getattr(lambda_node.args, "vararg", None)
+                or getattr(lambda_node.args, "kwarg", None)
                 or any(isinstance(a, ast.Starred) for a in node.args)
             )
             if plain and len(lambda_node.args.args) == len(node.args):
